@@ -208,6 +208,100 @@ macro_rules! shortest_unit_binade {
 shortest_unit_binade!(shortest_unit_binade_f32, u64, mul_pow10_u64, 23, 8);
 shortest_unit_binade!(shortest_unit_binade_f64, u128, mul_pow10_u128, 52, 16);
 
+/// x * 10^k (k <= 38), None on overflow; a case split so that every branch multiplies by a constant
+pub fn mul_pow10_checked(x: u128, k: u32) -> Option<u128> {
+    match k {
+            0 => Some(x),
+            1 => x.checked_mul(10),
+            2 => x.checked_mul(100),
+            3 => x.checked_mul(1000),
+            4 => x.checked_mul(10000),
+            5 => x.checked_mul(100000),
+            6 => x.checked_mul(1000000),
+            7 => x.checked_mul(10000000),
+            8 => x.checked_mul(100000000),
+            9 => x.checked_mul(1000000000),
+            10 => x.checked_mul(10000000000),
+            11 => x.checked_mul(100000000000),
+            12 => x.checked_mul(1000000000000),
+            13 => x.checked_mul(10000000000000),
+            14 => x.checked_mul(100000000000000),
+            15 => x.checked_mul(1000000000000000),
+            16 => x.checked_mul(10000000000000000),
+            17 => x.checked_mul(100000000000000000),
+            18 => x.checked_mul(1000000000000000000),
+            19 => x.checked_mul(10000000000000000000),
+            20 => x.checked_mul(100000000000000000000),
+            21 => x.checked_mul(1000000000000000000000),
+            22 => x.checked_mul(10000000000000000000000),
+            23 => x.checked_mul(100000000000000000000000),
+            24 => x.checked_mul(1000000000000000000000000),
+            25 => x.checked_mul(10000000000000000000000000),
+            26 => x.checked_mul(100000000000000000000000000),
+            27 => x.checked_mul(1000000000000000000000000000),
+            28 => x.checked_mul(10000000000000000000000000000),
+            29 => x.checked_mul(100000000000000000000000000000),
+            30 => x.checked_mul(1000000000000000000000000000000),
+            31 => x.checked_mul(10000000000000000000000000000000),
+            32 => x.checked_mul(100000000000000000000000000000000),
+            33 => x.checked_mul(1000000000000000000000000000000000),
+            34 => x.checked_mul(10000000000000000000000000000000000),
+            35 => x.checked_mul(100000000000000000000000000000000000),
+            36 => x.checked_mul(1000000000000000000000000000000000000),
+            37 => x.checked_mul(10000000000000000000000000000000000000),
+            38 => x.checked_mul(100000000000000000000000000000000000000),
+            _ => None,
+    }
+}
+
+/// Shorter-interval case of Dragonbox on f32 powers of two 2^e, 25 <= e <= 127 (every quantity is an exact integer below
+/// 2^128): the decimal (mant, exp) returned by to_decimal lies in the rounding interval [2^e - 2^(e-25), 2^e + 2^(e-24)]
+/// (closed: the mantissa field 0 is even) and has no trailing zero.
+pub fn shorter_interval_f32(be: u32) -> Result<(), &'static str> {
+    let v = f32::from_bits(be << 23);
+    let fp = alg::to_decimal(v);
+    let e = be - 127;
+    if fp.exp < 0 || fp.exp > 38 { return Err("decimal exponent of an integer-valued power of two is in 0..=38"); }
+    let val = match mul_pow10_checked(fp.mant as u128, fp.exp as u32) { Some(v) => v, None => return Err("mant * 10^exp does not exceed the f32 range") };
+    let c = 1u128 << e;
+    let lo = c - (1u128 << (e - 25));
+    let hi = c + (1u128 << (e - 24));
+    if val < lo || val > hi { return Err("the shortest decimal of a power of two lies in its rounding interval (round trip)"); }
+    if fp.mant % 10 == 0 { return Err("no trailing decimal zero in the significand"); }
+    Ok(())
+}
+
+/// same contract for f64 powers of two 2^e, 54 <= e <= 127: interval [2^e - 2^(e-54), 2^e + 2^(e-53)].
+pub fn shorter_interval_f64(be: u64) -> Result<(), &'static str> {
+    let v = f64::from_bits(be << 52);
+    let fp = alg::to_decimal(v);
+    let e = (be - 1023) as u32;
+    if fp.exp < 0 || fp.exp > 38 { return Err("decimal exponent of an integer-valued power of two is in 0..=38"); }
+    let val = match mul_pow10_checked(fp.mant as u128, fp.exp as u32) { Some(v) => v, None => return Err("mant * 10^exp stays below 2^128") };
+    let c = 1u128 << e;
+    let lo = c - (1u128 << (e - 54));
+    let hi = c + (1u128 << (e - 53));
+    if val < lo || val > hi { return Err("the shortest decimal of a power of two lies in its rounding interval (round trip)"); }
+    if fp.mant % 10 == 0 { return Err("no trailing decimal zero in the significand"); }
+    Ok(())
+}
+
+/// f32 powers of two 2^e, -70 <= e <= -1: mant / 10^k in [2^(e-25) (2^25 - 1), 2^(e-24) (2^24 + 1)], cross-multiplied.
+pub fn shorter_interval_f32_neg(be: u32) -> Result<(), &'static str> {
+    let v = f32::from_bits(be << 23);
+    let fp = alg::to_decimal(v);
+    let ne = 127 - be;                       // -e, 1..=70
+    if fp.exp >= 0 || fp.exp < -38 { return Err("decimal exponent of a power of two below 1 is in -38..=-1"); }
+    let k = (-fp.exp) as u32;
+    if fp.mant >= (1 << 30) { return Err("f32 significand has at most 9 digits"); }
+    let d = fp.mant as u128;
+    let lo_r = match mul_pow10_checked((1u128 << 25) - 1, k) { Some(v) => v, None => return Err("10^k stays in range") };
+    let hi_r = match mul_pow10_checked((1u128 << 24) + 1, k) { Some(v) => v, None => return Err("10^k stays in range") };
+    if (d << (25 + ne)) < lo_r || (d << (24 + ne)) > hi_r { return Err("the shortest decimal of a power of two lies in its rounding interval (round trip)"); }
+    if fp.mant % 10 == 0 { return Err("no trailing decimal zero in the significand"); }
+    Ok(())
+}
+
 pub fn shortest_f32_unit(bits: u32) -> Result<(), &'static str> {
     use lexical_write_float::ToLexical;
     let v = f32::from_bits(bits);
@@ -226,6 +320,55 @@ pub fn shortest_f64_unit(bits: u64) -> Result<(), &'static str> {
 pub mod rt {
     use super::*;
     crate::harnesses! {
+        /// f32 powers of two 2^25 ..= 2^127 (symbolic exponent): to_decimal's result lies in the rounding interval, by exact
+        /// 128-bit integer arithmetic (no parser involved), and carries no trailing zero.
+        /// @prop C02 C08
+        /// @feat default
+        /// @bound f32 powers of two with binary exponent 25..=127
+        /// @fn lexical-write-float::algorithm::compute_nearest_shorter[f32]
+        /// @fn lexical-write-float::algorithm::to_decimal
+        /// @timeout 1500
+        #[cfg_attr(kani, kani::unwind(12))]
+        fn shorter_interval_f32_int_powers() {
+            let be: u32 = any();
+            assume(be >= 152 && be <= 254);
+            let r = shorter_interval_f32(be);
+            vcheck!(r.is_ok(), "f32 power of two: shortest decimal is inside the rounding interval");
+            cover(be == 214);
+        }
+
+        /// f64 powers of two 2^54 ..= 2^127 (symbolic exponent): same contract, exact 128-bit integer arithmetic.
+        /// @prop C02 C08
+        /// @feat default
+        /// @bound f64 powers of two with binary exponent 54..=127
+        /// @fn lexical-write-float::algorithm::compute_nearest_shorter[f64]
+        /// @fn lexical-write-float::algorithm::to_decimal
+        /// @timeout 1500
+        #[cfg_attr(kani, kani::unwind(12))]
+        fn shorter_interval_f64_int_powers() {
+            let be: u64 = any();
+            assume(be >= 1023 + 54 && be <= 1023 + 127);
+            let r = shorter_interval_f64(be);
+            vcheck!(r.is_ok(), "f64 power of two: shortest decimal is inside the rounding interval");
+            cover(be == 1023 + 89);
+        }
+
+        /// f32 powers of two 2^-70 ..= 2^-1 (symbolic exponent): same contract, cross-multiplied in 128 bits.
+        /// @prop C02 C08
+        /// @feat default
+        /// @bound f32 powers of two with binary exponent -70..=-1
+        /// @fn lexical-write-float::algorithm::compute_nearest_shorter[f32]
+        /// @fn lexical-write-float::algorithm::to_decimal
+        /// @timeout 1500
+        #[cfg_attr(kani, kani::unwind(12))]
+        fn shorter_interval_f32_neg_powers() {
+            let be: u32 = any();
+            assume(be >= 57 && be <= 126);
+            let r = shorter_interval_f32_neg(be);
+            vcheck!(r.is_ok(), "f32 power of two below 1: shortest decimal is inside the rounding interval");
+            cover(be == 100);
+        }
+
         /// f32 in [1, 2) whose mantissa field is below 2^12 (long outputs, 8-9 digits): the written string is in the rounding interval (round-trips), has no
         /// trailing zero, is shortest and is the closest decimal of its length - checked by exact integer arithmetic.
         /// @prop C02 C08
